@@ -416,6 +416,12 @@ func CheckC07(p *Pkg, e *Env, r *res.Result) {
 			fail(kind, "does not validate: "+strings.Join(errs, "; "))
 			return
 		}
+		// "map entries appear under their own keys": every key of the value's own
+		// AdditionalProperties map is a key of the encoded object
+		if missing := missingAdditionalKeys(v, tree); missing != "" {
+			fail("additional-property-lost", "the value's additional property "+missing+" is not in the encoded object")
+			return
+		}
 		if g.UnsetOptionals+g.Nulls+g.NonEmptyCollections > 0 {
 			r.NonTrivial("C07", p.Index, tg.Name, shapeHash(bs))
 		}
@@ -515,6 +521,31 @@ func checkC07Responses(p *Pkg, e *Env, r *res.Result) {
 	if !ok && lastFail != nil {
 		r.Fail(*lastFail)
 	}
+}
+
+// missingAdditionalKeys reports (quoted) a key of v's AdditionalProperties map - v a
+// struct, possibly inside Maybe / Nullable wrappers - that the encoded object lacks.
+func missingAdditionalKeys(v reflect.Value, tree any) string {
+	for v.IsValid() && v.Kind() == reflect.Struct && isOptionStruct(v.Type()) {
+		if !v.Field(0).Bool() {
+			return ""
+		}
+		v = v.Field(1)
+	}
+	if !v.IsValid() || v.Kind() != reflect.Struct {
+		return ""
+	}
+	f := v.FieldByName("AdditionalProperties")
+	if !f.IsValid() || f.Kind() != reflect.Map || f.Type().Key().Kind() != reflect.String {
+		return ""
+	}
+	obj, ok := tree.(map[string]any)
+	for _, k := range f.MapKeys() {
+		if _, has := obj[k.String()]; !ok || !has {
+			return fmt.Sprintf("%q", k.String())
+		}
+	}
+	return ""
 }
 
 func classifySchemaErr(e string) string {
